@@ -124,7 +124,7 @@ def run(tier, t0):
                 if len(ds) == 1:
                     e = (e[0], e[1], eol.expand(eol.call_tree(ds[0]['term']))) + tuple(e[3:])
             rets.append(show(e))
-        want = '(nom::sequence::preceded::{closure#0} (nom::sequence::preceded (nom::bytes::complete::take_while (closure breakpad_symbols::sym_file::parser::my_eol::{closure#0})) (nom::bytes::complete::tag (const &[u8; 1]))) (tuple input))'
+        want = '(nom::sequence::preceded::{closure#0} (nom::sequence::preceded (nom::bytes::complete::take_while (closure breakpad_symbols::sym_file::parser::my_eol::{closure#0})) (nom::bytes::complete::tag (bytes (10)))) (tuple input))'
         if rets != [want]:
             res.violation('C10.7', 'C10.7|my_eol', eol, eol.line, 'my_eol is %s, not preceded(take_while(\\r), tag(\\n)) applied once: a terminator that can swallow further lines makes a record\'s extent depend on what else is in the buffer' % (rets[0][:200] if rets else 'not found'))
         cl = c.fn('breakpad_symbols::sym_file::parser::my_eol::{closure#0}')
